@@ -83,7 +83,7 @@ def battery(seed, n):
             items.append((k, gen.TAG("div", gen.TAG("span", {"k": "text", "s": "p"}, inner, ws=False), gen.TAG("p", {"k": "text", "s": "q"}))))
         elif k == "dyninst":
             # instances of ONE class that differ in the protocol methods they carry: which kind was met first must not matter
-            items.append((k, {"has": ["tagify", "repr", "repr", "tagify", None][(i // len(kinds)) % 5], "n": i}))
+            items.append((k, {"has": None if (i // len(kinds)) % 5 == 4 else "tagify" if i < n // 2 else "repr", "n": i}))
         elif k == "bigrepr":
             # short-lived self-rendering objects with large markup, one after the other (addresses get re-used)
             items.append((k, {"sizes": [rng.choice([100, 2047, 2048, 3000, 5000, 70000]) for _ in range(rng.randint(3, 8))], "n": i}))
@@ -100,8 +100,10 @@ def battery(seed, n):
             items.append((k, {"n": i, "root_attrs": rng.random() < 0.4, "root": rng.choice(["html", "html", "body"])}))
         elif k == "longtwin":
             # a long text with metacharacters, once as plain text and (in another item) as HTML(): which came first must not matter
-            txt = "long <b>text</b> & more " * 4 + "#%d" % (i % 3)
-            items.append((k, {"s": txt, "html": bool((i // len(kinds)) % 2), "also_attr": rng.random() < 0.5}))
+            txt = "long <b>text</b> & more " * 4 + "#%d" % ((i // len(kinds)) % 2)
+            # (the first half of the battery holds the HTML() twins, the second half the plain ones: whichever order a process runs
+            #  the battery in, forward and reversed processes meet the two kinds in opposite order)
+            items.append((k, {"s": txt, "html": i < n // 2, "also_attr": rng.random() < 0.5}))
         elif k == "shared":
             items.append((k, {"kids": [gen.rand_tree(rng, depth=1), {"k": "text", "s": "sh%d" % i}][: rng.randint(1, 2)],
                               "attrs": [["class_", {"t": "str", "s": "c"}], ["id", {"t": "str", "s": "i"}]][: rng.randint(0, 2)], "lone": rng.random() < 0.5}))
